@@ -169,6 +169,10 @@ class PUSO(BO, PUSOMatrix):
         P = puso_to_pubo(self)
         P._mapping = self.mapping
         P._reverse_mapping = self.reverse_mapping
+        # reduction ancillas start at P.num_binary_variables; they must not
+        # collide with any label of the mapping, which can contain variables
+        # that have cancelled out.
+        P._num_binary_variables = self.num_binary_variables
         return P
 
     def to_pubo(self, deg=None, lam=None, pairs=None):
